@@ -23,6 +23,7 @@ C02(o) ==
               /\ {[x EXCEPT !.query = {}] : x \in s} # {[x EXCEPT !.query = {}] : x \in p} THEN {"url-differs"} ELSE {})
      \cup (IF p # {} /\ s = {} THEN {"target-missing"} ELSE {})
      \cup (IF p = {} /\ s # {} THEN {"target-not-dropped"} ELSE {})
+     \cup (IF ~o.twinKept THEN {"targets-with-equal-visible-labels-collapsed"} ELSE {})
 
 \* C15
 C15(o) == (IF ~o.hashStable THEN {"hash-changes-with-arrangement-or-round"} ELSE {})
